@@ -331,6 +331,10 @@ func bodyC06(s *Sim) {
 	sync()
 	for i := 0; i < cs.Storm; i++ {
 		for _, p := range s.Store.Pods() {
+			if p.DeletionTimestamp != nil && s.rngEnv.IntN(2) == 0 {
+				s.Store.Remove(objKey{KPod, p.Namespace, p.Name}) // finalised: the canary node is empty now
+				continue
+			}
 			if letterOfPod(p) == "B" && p.DeletionTimestamp == nil && s.rngEnv.IntN(2) == 0 {
 				switch s.rngEnv.IntN(4) {
 				case 0:
